@@ -15,12 +15,49 @@ open Mqtt.Model.Topics (MemTopics)
 /-- session reference of connection `c`, if `c` is in the table -/
 def sessRefOf (b : B) (c : Nat) : Option Nat := (b.getConn c).map (·.sess)
 
-/-- events that may change the will / will flag of session object `r` -/
+/-- `first` (the handshake after the take-over) replaces the will of session object `r`: an
+accepted CONNECT that resumes `r` -/
+def resumesRef (b : B) (r c : Nat) : First → Bool → Prop
+  | .connect req, a => accepts (.connect req) a = true ∧ (resumed b c req).map (·.ref) = some r
+  | _, _ => False
+
+/-- the connections a first packet takes over (MQTT-3.1.4-2): the live connections of the client
+whose identifier an acceptable CONNECT supplies -/
+def takenOver (b : B) : First → Bool → List Nat
+  | .connect req, a => if accepts (.connect req) a && !req.clientId.isEmpty then sameClient b req.clientId else []
+  | _, _ => []
+
+theorem takeOver_eq (b : B) (f : First) (a : Bool) : takeOver b f a = stopAll b (takenOver b f a) := by
+  cases f with
+  | garbage => rfl
+  | other t => rfl
+  | connect req =>
+    cases hacc : accepts (.connect req) a with
+    | false => rw [takeOver_refused b _ a hacc]; simp [takenOver, hacc, stopAll]
+    | true =>
+      rw [takeOver_accepted b req a hacc]
+      cases he : req.clientId.isEmpty <;> simp [takenOver, hacc, he, stopAll]
+
+/-- events that may change the will / will flag of session object `r`: the end of a connection
+bound to it - by itself, or because a CONNECT with its client identifier takes it over - and a
+CONNECT that resumes it -/
 def affectsWill (b : B) (r : Nat) : Ev → Prop
   | .close c => sessRefOf b c = some r
   | .packet c .disconnect => sessRefOf b c = some r
-  | .first c (.connect req) a => accepts (.connect req) a = true ∧ (resumed b c req).map (·.ref) = some r
+  | .first c f a => (∃ c' ∈ takenOver b f a, sessRefOf b c' = some r) ∨ resumesRef (takeOver b f a).1 r c f a
   | _ => False
+
+instance (b : B) (r c : Nat) (f : First) (a : Bool) : Decidable (resumesRef b r c f a) := by
+  cases f <;> simp only [resumesRef] <;> infer_instance
+
+instance (b : B) (r : Nat) (e : Ev) : Decidable (affectsWill b r e) := by
+  cases e with
+  | packet c p => cases p <;> simp only [affectsWill] <;> infer_instance
+  | first c f a => simp only [affectsWill]; infer_instance
+  | close c => simp only [affectsWill]; infer_instance
+  | srvPub p => simp only [affectsWill]; infer_instance
+  | srvSub cb f q => simp only [affectsWill]; infer_instance
+  | srvUnsub cb f => simp only [affectsWill]; infer_instance
 
 /-- same will message and will flag -/
 def sameWill (s s' : Sess) : Prop := s'.will = s.will ∧ s'.willFlag = s.willFlag
@@ -131,7 +168,7 @@ theorem packet_will_kept (b : B) (c : Nat) (p : Packet) (r : Nat) (s : Sess) (hs
       | connectAgain => unfold packet; simp only [hc, ha, hs1]; exact ⟨s, hs, rfl, rfl⟩
 
 theorem first_will_kept {b : B} (hi : Inv b) (c : Nat) (f : First) (a : Bool) (r : Nat) (s : Sess)
-    (hs : b.getSess r = some s) (h : ¬ affectsWill b r (.first c f a)) :
+    (hs : b.getSess r = some s) (h : ¬ resumesRef b r c f a) :
     (first b c f a).1.getSess r = some s := by
   cases hacc : accepts f a with
   | false =>
@@ -160,13 +197,57 @@ theorem first_will_kept {b : B} (hi : Inv b) (c : Nat) (f : First) (a : Bool) (r
           rw [this] at hs; cases hs
         exact (getSess_setSess_ne { b with nextRef := b.nextRef + 1 } (newSess b c req) r hne).trans hs
 
+/-- `stop` leaves the session reference of every table entry as it is -/
+theorem stop_sessRefOf (b : B) (c d : Nat) : sessRefOf (stop b c).1 d = sessRefOf b d := by
+  cases hal : b.alive c with
+  | false => rw [stop_dead b c hal]
+  | true =>
+    unfold sessRefOf B.getConn
+    rw [(stop_conns b c hal).1]
+    simp only [markDead, find_markDead]
+    cases b.conns.find? (fun x => x.id == d) with
+    | none => rfl
+    | some cn => simp only [Option.map_some]; split <;> rfl
+
+theorem stopAll_getSess_ne (r : Nat) : ∀ (cs : List Nat) (b : B),
+    (∀ c ∈ cs, ∀ cn, b.getConn c = some cn → cn.sess ≠ r) → (stopAll b cs).1.getSess r = b.getSess r := by
+  intro cs
+  induction cs with
+  | nil => intro b _; rfl
+  | cons c cs ih =>
+    intro b h
+    rw [Mqtt.Proofs.Connect.stopAll_cons]
+    show (stopAll (stop b c).1 cs).1.getSess r = _
+    rw [ih, stop_getSess_ne b c r (h c (List.mem_cons_self ..))]
+    intro c' hc' cn hcn e
+    have h1 : sessRefOf (stop b c).1 c' = some r := by unfold sessRefOf; rw [hcn, ← e]; rfl
+    rw [stop_sessRefOf] at h1
+    unfold sessRefOf at h1
+    cases hg : b.getConn c' with
+    | none => rw [hg] at h1; cases h1
+    | some cn' =>
+      rw [hg] at h1
+      simp only [Option.map_some, Option.some.injEq] at h1
+      exact h c' (List.mem_cons_of_mem _ hc') cn' hg h1
+
 /-- One step keeps the will and will flag of session object `r`, unless the
 event is entitled to change them. -/
 theorem step_will_kept {b : B} (hi : Inv b) (e : Ev) (r : Nat) (s : Sess) (hs : b.getSess r = some s)
     (h : ¬ affectsWill b r e) :
     ∃ s', (step b e).1.getSess r = some s' ∧ sameWill s s' := by
   cases e with
-  | first c f a => exact ⟨s, first_will_kept hi c f a r s hs h, rfl, rfl⟩
+  | first c f a =>
+    have h1 : ¬ ∃ c' ∈ takenOver b f a, sessRefOf b c' = some r := fun h1 => h (.inl h1)
+    have h2 : ¬ resumesRef (takeOver b f a).1 r c f a := fun h2 => h (.inr h2)
+    have hi0 : Inv (takeOver b f a).1 :=
+      Mqtt.Proofs.Connect.takeOver_state Inv (fun b c h => inv_stop h c) b f a hi
+    have hs0 : (takeOver b f a).1.getSess r = some s := by
+      rw [takeOver_eq, stopAll_getSess_ne]
+      · exact hs
+      · intro c' hc' cn hcn e
+        exact h1 ⟨c', hc', by unfold sessRefOf; rw [hcn, ← e]; rfl⟩
+    rw [Mqtt.Proofs.Connect.step_first_eq, Mqtt.Proofs.Connect.connect_eq]
+    exact ⟨s, first_will_kept hi0 c f a r s hs0 h2, rfl, rfl⟩
   | packet c p =>
     refine packet_will_kept b c p r s hs ?_
     intro hp; subst hp; exact h
@@ -194,11 +275,20 @@ theorem step_will_kept {b : B} (hi : Inv b) (e : Ev) (r : Nat) (s : Sess) (hs : 
 /-! ### the connection stays live -/
 
 /-- events that end connection `c` or replace its table entry -/
-def endsConn (c : Nat) : Ev → Prop
+def endsConn (b : B) (c : Nat) : Ev → Prop
   | .close c' => c' = c
   | .packet c' .disconnect => c' = c
-  | .first c' _ _ => c' = c
+  | .first c' f a => c' = c ∨ c ∈ takenOver b f a
   | _ => False
+
+instance (b : B) (c : Nat) (e : Ev) : Decidable (endsConn b c e) := by
+  cases e with
+  | packet c' p => cases p <;> simp only [endsConn] <;> infer_instance
+  | first c' f a => simp only [endsConn]; infer_instance
+  | close c' => simp only [endsConn]; infer_instance
+  | srvPub p => simp only [endsConn]; infer_instance
+  | srvSub cb f q => simp only [endsConn]; infer_instance
+  | srvUnsub cb f => simp only [endsConn]; infer_instance
 
 theorem getConn_markDead_ne (b : B) (c d : Nat) (h : d ≠ c) : (markDead b c).getConn d = b.getConn d := by
   unfold B.getConn markDead
@@ -263,11 +353,34 @@ theorem packet_getConn (b : B) (c : Nat) (p : Packet) (d : Nat) (h : p = .discon
       | pingresp => unfold packet; simp only [hc, ha, hs1]; rfl
       | connectAgain => unfold packet; simp only [hc, ha, hs1]; rfl
 
-theorem step_conn_kept (b : B) (e : Ev) (c : Nat) (h : ¬ endsConn c e) :
+theorem stop_getConn_ne (b : B) (c' c : Nat) (hne : c ≠ c') : (stop b c').1.getConn c = b.getConn c := by
+  cases hal : b.alive c' with
+  | false => rw [stop_dead b c' hal]
+  | true =>
+    have h1 : (stop b c').1.getConn c = (markDead b c').getConn c := by
+      unfold B.getConn
+      rw [(stop_conns b c' hal).1]
+    rw [h1, getConn_markDead_ne b c' c hne]
+
+theorem stopAll_getConn_ne (c : Nat) : ∀ (cs : List Nat) (b : B), c ∉ cs → (stopAll b cs).1.getConn c = b.getConn c := by
+  intro cs
+  induction cs with
+  | nil => intro b _; rfl
+  | cons c' cs ih =>
+    intro b h
+    rw [Mqtt.Proofs.Connect.stopAll_cons]
+    show (stopAll (stop b c').1 cs).1.getConn c = _
+    rw [ih _ (fun hm => h (List.mem_cons_of_mem _ hm)), stop_getConn_ne b c' c (fun e => h (by simp [e]))]
+
+theorem step_conn_kept (b : B) (e : Ev) (c : Nat) (h : ¬ endsConn b c e) :
     (step b e).1.getConn c = b.getConn c := by
   cases e with
   | first c' f a =>
-    have hne : c ≠ c' := fun e => h e.symm
+    have hne : c ≠ c' := fun e => h (.inl e.symm)
+    have hto : (takeOver b f a).1.getConn c = b.getConn c := by
+      rw [takeOver_eq]; exact stopAll_getConn_ne c _ b (fun hm => h (.inr hm))
+    rw [Mqtt.Proofs.Connect.step_first_eq, Mqtt.Proofs.Connect.connect_eq, ← hto]
+    generalize (takeOver b f a).1 = b
     show (first b c' f a).1.getConn c = b.getConn c
     cases hacc : accepts f a with
     | false =>
@@ -280,16 +393,7 @@ theorem step_conn_kept (b : B) (e : Ev) (c : Nat) (h : ¬ endsConn c e) :
   | packet c' p =>
     refine packet_getConn b c' p c ?_
     intro hp; subst hp; exact h
-  | close c' =>
-    have hne : c ≠ c' := fun e => h e.symm
-    show (stop b c').1.getConn c = b.getConn c
-    cases hal : b.alive c' with
-    | false => rw [stop_dead b c' hal]
-    | true =>
-      have h1 : (stop b c').1.getConn c = (markDead b c').getConn c := by
-        unfold B.getConn
-        rw [(stop_conns b c' hal).1]
-      rw [h1, getConn_markDead_ne b c' c hne]
+  | close c' => exact stop_getConn_ne b c' c (fun e => h e.symm)
   | srvPub p =>
     show (srvPub b p).1.getConn c = b.getConn c
     unfold srvPub
@@ -304,7 +408,7 @@ theorem step_conn_kept (b : B) (e : Ev) (c : Nat) (h : ¬ endsConn c e) :
 object `r`, and none ends connection `c` or replaces its table entry -/
 def quiet (r c : Nat) : B → List Ev → Prop
   | _, [] => True
-  | b, e :: es => ¬ affectsWill b r e ∧ ¬ endsConn c e ∧ quiet r c (step b e).1 es
+  | b, e :: es => ¬ affectsWill b r e ∧ ¬ endsConn b c e ∧ quiet r c (step b e).1 es
 
 theorem run_will_kept (evs : List Ev) : ∀ {b : B}, Inv b → ∀ (r c : Nat) (cn : Conn) (s : Sess),
     b.getConn c = some cn → b.getSess r = some s → quiet r c b evs →
